@@ -256,3 +256,7 @@ def summarise(case):
     if 'twin' in case:
         return {'twin_of': _summarise(case["twin"]), 'threads': case.get('n', 2), 'plan': case['plan']}
     return _summarise(case)
+
+
+def setup_worker():
+    _twin.warm(_gen_case, _run_case)
